@@ -68,6 +68,38 @@ func formatSlice[T any, TS []T](builder *OutputBuilder, slice TS, dataType pgsql
 	return nil
 }
 
+// formatAlias renders an output alias. Result aliases and variable names come from user text and may contain
+// arbitrary characters; anything that is not a plain identifier (letters, digits, underscores and dollar signs,
+// not starting with a digit or dollar sign) is written as a quoted identifier with embedded double quotes
+// doubled, so that it always remains a single token.
+func formatAlias(alias pgsql.Identifier) pgsql.FormattingLiteral {
+	aliasStr := alias.String()
+
+	// The Cypher model keeps the raw token of an escaped symbolic name, including its back-tick delimiters.
+	// The name it denotes is the text between them with doubled back-ticks collapsed.
+	if len(aliasStr) >= 2 && aliasStr[0] == '`' && aliasStr[len(aliasStr)-1] == '`' {
+		aliasStr = strings.ReplaceAll(aliasStr[1:len(aliasStr)-1], "``", "`")
+	}
+
+	plain := aliasStr != ""
+
+	for idx := 0; plain && idx < len(aliasStr); idx++ {
+		switch c := aliasStr[idx]; {
+		case c >= 'a' && c <= 'z', c >= 'A' && c <= 'Z', c == '_':
+		case c >= '0' && c <= '9', c == '$':
+			plain = idx > 0
+		default:
+			plain = false
+		}
+	}
+
+	if plain {
+		return pgsql.FormattingLiteral(aliasStr)
+	}
+
+	return pgsql.FormattingLiteral("\"" + strings.ReplaceAll(aliasStr, "\"", "\"\"") + "\"")
+}
+
 func formatValue(builder *OutputBuilder, value any) error {
 	switch typedValue := value.(type) {
 	case uint:
@@ -446,7 +478,7 @@ func formatNode(builder *OutputBuilder, rootExpr pgsql.SyntaxNode) error {
 
 		case pgsql.AliasedExpression:
 			if typedNextExpr.Alias.Set {
-				exprStack = append(exprStack, typedNextExpr.Alias.Value)
+				exprStack = append(exprStack, formatAlias(typedNextExpr.Alias.Value))
 				exprStack = append(exprStack, pgsql.FormattingLiteral(" as "))
 				exprStack = append(exprStack, typedNextExpr.Expression)
 			} else {
